@@ -15,6 +15,7 @@ agreement of recursive smoothers after seed decay.
 from __future__ import annotations
 
 import ast
+import math
 from fractions import Fraction as F
 
 from vlib.loader import Repo, AnalysisError
@@ -560,7 +561,35 @@ def _wilder_refs(val, n, p):
     a, b = ((p + 1) // 2, (p + 1) // 2) if p % 2 else (p // 2, p // 2 + 1)
     s1 = [None if k < a - 1 else sum(C[k - a + 1:k + 1]) / a for k in range(n)]
     trima = [None if k < a + b - 2 else sum(s1[k - b + 1:k + 1]) / b for k in range(n)]
-    return {"dm.plus": sp, "dm.minus": sm, "di.plus": pdi, "di.minus": mdi, "adx.value": adx, "trima.value": trima}
+    refs = {"dm.plus": sp, "dm.minus": sm, "di.plus": pdi, "di.minus": mdi, "adx.value": adx, "trima.value": trima}
+    # ADXR = (ADX today + ADX n bars ago) / 2 (Wilder: n = p; TA-Lib: n = p - 1) - both accepted
+    for lag in (p, p - 1):
+        refs[f"adxr.value#{lag}"] = [None if (adx[k] is None or k - lag < 0 or adx[k - lag] is None) else (adx[k] + adx[k - lag]) / 2 for k in range(n)]
+    # power-weighted averages over the last p bars: weight (p - i)^e for the bar i steps back, i = 0..p-1
+    def pw(e, off=0):
+        out = [None] * n
+        for k in range(p + off + 1, n):        # (the repository starts its output there; earlier entries are a warm-up convention)
+            ws = [(p - i - off) if e is None else (p - i) ** e for i in range(p)]
+            if sum(ws) == 0:
+                continue
+            out[k] = sum(C[k - i] * w for i, w in enumerate(ws)) / sum(ws)
+        return out
+    refs["srwma.value"], refs["sqwma.value"], refs["cwma.value"] = pw(0.5), pw(2), pw(3)
+    refs["vpwma.value"] = pw(0.382)
+    refs["epma.value"] = pw(None, off=2)
+    # natural moving average (Jim Sloman): ratio = sum |dln_i| (sqrt(i+1) - sqrt(i)) / sum |dln_i| over the last p log changes,
+    # value = price_t * ratio + price_{t-1} * (1 - ratio)
+    nma = [None] * n
+    for k in range(p + 1, n):
+        num = den = 0.0
+        for i in range(p):
+            oi = abs(math.log(C[k - i]) - math.log(C[k - i - 1]))
+            num += oi * (math.sqrt(i + 1) - math.sqrt(i))
+            den += oi
+        r = num / den if den else 0.0
+        nma[k] = C[k] * r + C[k - 1] * (1 - r)
+    refs["nma.value"] = nma
+    return refs
 
 
 def check_witness_definitions(repo, rep):
@@ -571,9 +600,10 @@ def check_witness_definitions(repo, rep):
                   "inside [0, 100]; DX and ADX with the mean of the first p DX values as seed; trima = simple average of a simple average); a numerical difference is a counterexample, agreement is reported as agreement on the witnesses")
     n = 16
     for p in (3, 4):
-      for name, fields in (("dm", ("plus", "minus")), ("di", ("plus", "minus")), ("adx", ("value",)), ("trima", ("value",))):
+      for name, fields in (("dm", ("plus", "minus")), ("di", ("plus", "minus")), ("adx", ("value",)), ("trima", ("value",)), ("adxr", ("value",)),
+                           ("srwma", ("value",)), ("sqwma", ("value",)), ("cwma", ("value",)), ("vpwma", ("value",)), ("epma", ("value",)), ("nma", ("value",))):
           try:
-              out = run_ind(repo, name, n=n, period=p)
+              out = run_ind(repo, name, n=n, period=p, **({"offset": 2} if name == "epma" else {}))
           except Undecided as e:
               rep.undecided_item(f"{name}: {e}")
               continue
@@ -584,7 +614,23 @@ def check_witness_definitions(repo, rep):
                   continue
               bad = None
               for vn, val in IR.valuations(n):
-                  ref = _wilder_refs(val, n, p)[f"{name}.{f}"]
+                  allrefs = _wilder_refs(val, n, p)
+                  cands = [v for kk, v in allrefs.items() if kk == f"{name}.{f}" or kk.startswith(f"{name}.{f}#")]
+                  if len(cands) > 1:
+                      # several accepted conventions: take the one that agrees (if any), else report against the first
+                      def agrees(rf):
+                          for i_ in range(n):
+                              if rf[i_] is None:
+                                  continue
+                              try:
+                                  g_ = eval_dag(arr.data[i_], val)
+                              except Undecided:
+                                  return False
+                              if g_ is None or (isinstance(g_, float) and g_ != g_) or abs(g_ - rf[i_]) > 1e-9 * max(1.0, abs(rf[i_])):
+                                  return False
+                          return True
+                      cands = [c for c in cands if agrees(c)] or cands[:1]
+                  ref = cands[0]
                   for i in range(n):
                       try:
                           g = eval_dag(arr.data[i], val)
